@@ -23,8 +23,19 @@ func main() {
 	meta := flag.String("meta", "", "JSON meta")
 	what := flag.String("what", "", "description")
 	bare := flag.Bool("bare", false, "do not add the zoo files")
+	progMeta := flag.String("prog", "", "JSON file {\"prog\": <program model>, ...}: files are rendered from the model and the JSON becomes the meta")
 	flag.Parse()
 	var files hx.Files
+	if *progMeta != "" {
+		fs, raw, err := progFiles(*progMeta)
+		if err != nil {
+			fmt.Fprintln(os.Stderr, err)
+			os.Exit(2)
+		}
+		files = fs
+		*meta = string(raw)
+		*bare = true
+	}
 	if !*bare {
 		p := &pg.Prog{}
 		for _, f := range p.Files() {
